@@ -89,7 +89,7 @@ theorem replaceBelow_node (h : Nat) (F : HTree → List HTree) (p : Nat) (v : Va
 theorem replaceKids_nil (h : Nat) (F : HTree → List HTree) : replaceKids h F [] = [] := by
   simp [replaceKids]
 
-theorem replaceKids_cons (h : Nat) (F : HTree → List HTree) (k : HTree) (ks : List HTree) :
+theorem fs_replaceKids_cons (h : Nat) (F : HTree → List HTree) (k : HTree) (ks : List HTree) :
     replaceKids h F (k :: ks) =
       if k.handle = h then F k ++ ks else replaceBelow h F k :: replaceKids h F ks := by
   simp [replaceKids]
@@ -224,7 +224,7 @@ mutual
       intro hn
       rw [handlesList_cons] at hn
       simp only [List.mem_append, not_or] at hn
-      rw [replaceKids_cons, if_neg (handle_ne_of_not_mem hn.1),
+      rw [fs_replaceKids_cons, if_neg (handle_ne_of_not_mem hn.1),
         fs_replaceBelow_of_not_mem k hn.1, fs_replaceKids_of_not_mem ks hn.2]
 end
 
